@@ -36,6 +36,7 @@ From CGV Require Import Resolve.Bonding Resolve.CutCheck Resolve.CutBonding Reso
 From CGV Require Hydro.Hydrogens Hydro.Squash.
 From CGV Require Import Hydro.SquashDefs.
 From CGV Require Import Compose.GraphAdj Compose.CutModel Compose.CutSpecDefs Compose.CutSpecCheck Compose.CutSkeleton Compose.CutHydrogens Compose.ComposeFlat.
+From CGV Require Export Compose.TextCutDefs.
 Import ListNotations.
 Open Scope Z_scope.
 
@@ -46,20 +47,6 @@ Definition def_str (d : fdef) : pystr := "#"%char :: fd_name d ++ "="%char :: de
 Definition frag_body (defs : list fdef) : pystr := join [","%char] (map def_str defs).
 Definition cut_string (a : Grammar.chain) (defs : list fdef) : pystr :=
   dotted [block_of (Grammar.print_chain a); block_of (frag_body defs)].
-
-(** ---------------------------------------------------------------- read_fragments from the text *)
-Definition mk_text (fo : float_oracle) (aa : bool) (name : pystr) (r : StripImpl.result) : res graph :=
-  let '(clean, d, ez, a) := r in
-  if aa then
-    G <- smiles_parse (if str_eqb clean (S "H") then S "[H]" else clean) ;;
-    T <- final_assemble name G d ez a ;;
-    Ok (tmpl_graph T)
-  else FragRead.read_fragment_cgsmiles fo clean name d a.
-Definition read_fragments_text (fo : float_oracle) : pystr -> bool -> res fragdict :=
-  read_fragments_with fo (mk_text fo) EzStrings.fd_add.
-(** from_string(s, last_all_atom=True, legacy=True) *)
-Definition from_text (fo : float_oracle) (s : pystr) : res rstate :=
-  from_string (ReaderImpl.read_cgsmiles fo) (read_fragments_text fo) s true true.
 
 Lemma mk_text_final fo name text :
   (r <- strip_bonding_descriptors fo text ;; mk_text fo true name r)
